@@ -1,14 +1,19 @@
 //! The decoding entry points of hickory that accept network bytes, behind one uniform call.
 
+use std::cell::{Cell, RefCell};
 use std::net::SocketAddr;
 
+use futures_util::StreamExt;
+use hickory_net::runtime::Time;
 use hickory_net::xfer::Protocol;
-use hickory_proto::op::{DnsResponse, Message};
+use hickory_net::BufDnsStreamHandle;
+use hickory_proto::op::{DnsResponse, Message, SerialMessage};
 use hickory_proto::rr::rdata::tsig::signed_bitmessage_to_buf;
 use hickory_proto::rr::{Name, RData, Record, RecordType};
 use hickory_proto::serialize::binary::{BinDecodable, BinDecoder, DecodeError};
 use hickory_proto::ProtoError;
-use hickory_server::server::Request;
+use hickory_server::server::{Request, RequestHandler, ResponseHandler};
+use hickory_server::Server;
 
 use crate::names;
 
@@ -20,6 +25,11 @@ pub enum Entry {
     Request,
     /// `DnsResponse::from_buffer`
     Response,
+    /// the server's real front door (`ServerContext::handle_request` through the
+    /// `Server::verif_handle_raw_request` hook, UDP): header gate, response gate, opcode gate,
+    /// `Queries::read`, `MessageRequest::read_with_queries`, error responses built from the raw
+    /// question. "accepted" = the request reached the `RequestHandler`.
+    FrontDoor,
     /// `signed_bitmessage_to_buf(bytes, None, true)`: the TSIG verifier's parse of unauthenticated bytes
     TsigTbs,
     /// `Record::read` with the decoder positioned at `off` (bytes before `off` are pointer targets)
@@ -36,6 +46,7 @@ impl Entry {
             Entry::Message => "message".into(),
             Entry::Request => "request".into(),
             Entry::Response => "response".into(),
+            Entry::FrontDoor => "frontdoor".into(),
             Entry::TsigTbs => "tsig-tbs".into(),
             Entry::Record { off } => format!("record@{off}"),
             Entry::Name { off } => format!("name@{off}"),
@@ -48,6 +59,7 @@ impl Entry {
             Entry::Message => "message",
             Entry::Request => "request",
             Entry::Response => "response",
+            Entry::FrontDoor => "frontdoor",
             Entry::TsigTbs => "tsig-tbs",
             Entry::Record { .. } => "record",
             Entry::Name { .. } => "name",
@@ -65,6 +77,7 @@ impl Entry {
             "message" => Entry::Message,
             "request" => Entry::Request,
             "response" => Entry::Response,
+            "frontdoor" => Entry::FrontDoor,
             "tsig-tbs" => Entry::TsigTbs,
             _ => {
                 let (head, off) = s.split_once('@')?;
@@ -156,6 +169,72 @@ fn check_names(visit: impl FnOnce(&mut dyn FnMut(&Name))) -> Option<(&'static st
     bad
 }
 
+// ---- front door -------------------------------------------------------------------------------
+
+thread_local! {
+    static REACHED: Cell<bool> = const { Cell::new(false) };
+    static REQ_NAMES: RefCell<Option<(&'static str, String)>> = const { RefCell::new(None) };
+    static FRONT: (tokio::runtime::Runtime, Server<Probe>) = (
+        tokio::runtime::Builder::new_current_thread().enable_time().build().expect("runtime"),
+        Server::new(Probe),
+    );
+}
+
+/// A request handler that only records that decoding succeeded and inspects the decoded names.
+struct Probe;
+
+#[async_trait::async_trait]
+impl RequestHandler for Probe {
+    async fn handle_request<R: ResponseHandler, T: Time>(&self, r: &Request, _response_handle: R) {
+        REACHED.with(|c| c.set(true));
+        let bad = request_names(r);
+        REQ_NAMES.with(|c| *c.borrow_mut() = bad);
+    }
+}
+
+fn request_names(r: &Request) -> Option<(&'static str, String)> {
+    check_names(|f| {
+        f(&r.queries.original().name);
+        f(r.queries.name());
+        for rec in r.answers.iter().chain(r.authorities.iter()).chain(r.additionals.iter()) {
+            names::visit_record(rec, f);
+        }
+        if let Some(sig) = &r.signature {
+            f(&sig.name);
+        }
+    })
+}
+
+fn front_door(buf: &[u8]) -> (bool, &'static str, Option<(&'static str, String)>) {
+    REACHED.with(|c| c.set(false));
+    REQ_NAMES.with(|c| *c.borrow_mut() = None);
+    let responses: Vec<Vec<u8>> = FRONT.with(|(rt, server)| {
+        rt.block_on(async {
+            let (handle, mut rx) = BufDnsStreamHandle::new(src());
+            server.verif_handle_raw_request(SerialMessage::new(buf.to_vec(), src()), Protocol::Udp, handle).await;
+            let mut out = vec![];
+            while let Some(m) = rx.next().await {
+                out.push(m.into_parts().0);
+            }
+            out
+        })
+    });
+    if REACHED.with(|c| c.get()) {
+        return (true, "", REQ_NAMES.with(|c| c.borrow_mut().take()));
+    }
+    let err = match responses.first() {
+        None => "frontdoor:no-response",
+        Some(r) if r.len() < 4 => "frontdoor:short-response",
+        Some(r) => match r[3] & 0x0f {
+            1 => "frontdoor:FormErr",
+            4 => "frontdoor:NotImp",
+            5 => "frontdoor:Refused",
+            _ => "frontdoor:other-rcode",
+        },
+    };
+    (false, err, None)
+}
+
 fn src() -> SocketAddr {
     SocketAddr::from(([192, 0, 2, 1], 5353))
 }
@@ -174,22 +253,10 @@ pub fn decode(entry: Entry, buf: &[u8]) -> Outcome {
             Err(e) => (false, proto_err_name(&e), None),
         },
         Entry::Request => match Request::from_bytes(buf.to_vec(), src(), Protocol::Udp) {
-            Ok(r) => (
-                true,
-                "",
-                check_names(|f| {
-                    f(&r.queries.original().name);
-                    f(r.queries.name());
-                    for rec in r.answers.iter().chain(r.authorities.iter()).chain(r.additionals.iter()) {
-                        names::visit_record(rec, f);
-                    }
-                    if let Some(sig) = &r.signature {
-                        f(&sig.name);
-                    }
-                }),
-            ),
+            Ok(r) => (true, "", request_names(&r)),
             Err(e) => (false, proto_err_name(&e), None),
         },
+        Entry::FrontDoor => front_door(buf),
         Entry::TsigTbs => match signed_bitmessage_to_buf(buf, None, true) {
             Ok((_tbs, rec)) => (true, "", check_names(|f| f(&rec.name))),
             Err(e) => (false, proto_err_name(&e), None),
